@@ -265,3 +265,87 @@ Example c01_witness_corners :
                [AI64 0; AI32 0; AU64 0; AU32 0; AF64 []; ADur {| secs := 0; nanos := 0 |};
                 AVecU64 []; AVecF64 []; AVecDur []])) = 22.
 Proof. vm_compute. repeat split. Qed.
+
+(* ==== added after the audit of 2026-10-02 (selftest/audit/REPORT-2026-10-02.md) ==== *)
+Require Import Cadence.Proofs.AuditM1.
+(* the model of the pinned tree before the fix of defect D1 agrees with the repaired model on
+   every call whose value has at least one element ... *)
+Theorem c01_v0_agrees : forall cfg c v,
+  to_value (k_kind c) (k_arg c) = Some (inr v) -> mv_count v <> 0 ->
+  client_line_v0 cfg c = client_line cfg c.
+Proof. exact v0_agrees. Qed.
+
+(* ... (also on ill-typed calls and conversion errors: agreement holds exactly when no
+   accepted value is empty) ... *)
+Theorem c01_v0_agrees_iff : forall cfg c,
+  client_line_v0 cfg c = client_line cfg c <->
+  (forall v, to_value (k_kind c) (k_arg c) = Some (inr v) -> mv_count v <> 0).
+Proof. exact v0_agrees_iff. Qed.
+
+(* ... and differs exactly on the empty packed values *)
+Theorem c01_v0_differs : forall cfg c,
+  client_line_v0 cfg c <> client_line cfg c <->
+  exists v, to_value (k_kind c) (k_arg c) = Some (inr v) /\
+    (v = PackedSigned [] \/ v = PackedUnsigned [] \/ v = PackedFloat []).
+Proof. exact v0_differs_pin. Qed.
+
+(* there, the old code hands "<name>:|<type>[sections]" — no value text — to the sink, where
+   the repaired code reports InvalidInput *)
+Theorem c01_v0_on_empty : forall cfg c v,
+  to_value (k_kind c) (k_arg c) = Some (inr v) -> mv_count v = 0 ->
+  client_line cfg c = Some (inl InvalidInput) /\
+  value_texts v = [] /\
+  client_line_v0 cfg c =
+  Some (inr (match c_prefix cfg with
+             | [] => k_key c
+             | _ :: _ => trim_end_dots (c_prefix cfg) ++ b_dot :: k_key c
+             end ++ b_colon :: b_pipe :: code (k_kind c)
+        ++ match op_rate (k_ops c) with Some r => b_pipe :: b_at :: r | None => [] end
+        ++ match c_tags cfg ++ op_tags (k_ops c) with
+           | [] => []
+           | _ :: _ => b_pipe :: b_hash :: join b_comma (map render_tag (c_tags cfg ++ op_tags (k_ops c)))
+           end
+        ++ match (match op_container (k_ops c) with Some x => Some x | None => c_container cfg end) with
+           | Some x => b_pipe :: b_c :: b_colon :: x | None => [] end
+        ++ match op_timestamp (k_ops c) with Some t => b_pipe :: b_T :: render_N t | None => [] end)).
+Proof. exact v0_on_empty. Qed.
+
+(* the calls concerned: an empty Vec<u64>, Vec<f64> or Vec<Duration>, or a user-defined type
+   that yields an empty packed value *)
+Theorem c01_empty_value_args : forall k a v,
+  to_value k a = Some (inr v) -> mv_count v = 0 ->
+  a = AVecU64 [] \/ a = AVecF64 [] \/ a = AVecDur [] \/
+  (exists v', a = AUser v' /\ (v' = PackedSigned [] \/ v' = PackedUnsigned [] \/ v' = PackedFloat [])).
+Proof. exact empty_value_args_pin. Qed.
+
+Example c01_v0_witness :
+  let cfg := {| c_prefix := []; c_tags := []; c_container := None |} in
+  let c1 := {| k_kind := Timer; k_key := [107]%N; k_arg := AVecU64 [1; 20]%N; k_ops := [] |} in
+  let c0 := {| k_kind := Histogram; k_key := [107]%N; k_arg := AVecF64 []; k_ops := [WithTagValue [116]%N] |} in
+  client_line_v0 cfg c1 = client_line cfg c1 /\
+  client_line cfg c1 = Some (inr [107; 58; 49; 58; 50; 48; 124; 109; 115]%N) /\
+  client_line_v0 cfg c0 = Some (inr [107; 58; 124; 104; 124; 35; 116]%N) /\
+  client_line cfg c0 = Some (inl InvalidInput).
+Proof. exact v0_witness. Qed.
+
+(* the count of the entry points (audit A.23): whether a call type-checks depends on the kind
+   and the TYPE of the argument only (first theorem; [arg_index] numbers the ten constructors
+   of [arg], [arg_samples] holds one sample of each), hence the counts of the second are
+   counts of entry points: 22 (kind, built-in type) pairs = 4+4+2+1+6+4+1 by kind; 23 if the
+   user-defined route is counted once, 29 if once per kind; 7 kinds x 3 call forms = 21 *)
+Theorem c01_defined_by_type : forall k a,
+  to_value k a <> None <->
+  (match to_value k (nth (arg_index a) arg_samples (AI64 0)) with Some _ => true | None => false end) = true.
+Proof. exact defined_by_type. Qed.
+
+Theorem c01_entry_point_counts :
+  length (filter defined_pair (list_prod all_kinds builtin_args)) = 22 /\
+  map (fun k => length (filter (fun a => defined_pair (k, a)) builtin_args)) all_kinds = [4; 4; 2; 1; 6; 4; 1] /\
+  map (fun a => length (filter (fun k => defined_pair (k, a)) all_kinds)) builtin_args = [2; 1; 6; 1; 3; 2; 3; 2; 2] /\
+  length (filter defined_pair (list_prod all_kinds arg_samples)) = 29 /\
+  length (filter defined_pair (list_prod all_kinds builtin_args)) + 1 = 23 /\
+  length all_kinds = 7 /\ length arg_samples = 10 /\
+  length (list_prod all_kinds [TrySend; Plain; Quiet]) = 21 /\
+  length (list_prod all_kinds [TrySend; Plain; Quiet]) + 2 = 23 /\
+  length (filter defined_pair (list_prod all_kinds builtin_args)) + 2 = 24.
+Proof. exact entry_point_counts. Qed.
